@@ -204,6 +204,7 @@ class Interp:
         self.continuous = None  # callable(form argument) -> bool (two-sided poly mode: physical polynomial shared by sides)
         self.flags = set()
         self.min_den = math.inf
+        self.max_fn_arg = 0.0  # largest |argument| handed to a math/Bessel function (sin(2e5) amplifies rounding by 2e5)
         self._clean = None
 
     # ---------------------------------------------------------------- keys / dispatch
@@ -665,6 +666,8 @@ class Interp:
         if self.env(s).cplx and not np.iscomplexobj(a):
             a = a.astype(complex)  # complex mode: sqrt/ln/acos/asin leave the reals outside their real domain
         name = type(e).__name__
+        if a[0].size:
+            self.max_fn_arg = max(self.max_fn_arg, float(np.max(np.abs(a[0]))))
         with np.errstate(all="ignore"):
             return self.js.compose(a, jt.unary_table(name))
 
@@ -685,6 +688,8 @@ class Interp:
         if np.iscomplexobj(a) and np.any(np.imag(a)):
             raise Unsupported("complex bessel")
         a = np.real(a)
+        if a[0].size:
+            self.max_fn_arg = max(self.max_fn_arg, float(np.max(np.abs(a[0]))))
         with np.errstate(all="ignore"):
             return self.js.compose(a, jt.bessel_table(kind, nuv))
 
